@@ -189,6 +189,10 @@ func runAppProcess(c *child.Ctx, bin string, args []string, stdin []byte, k appC
 				if k.ReaderUs > 0 && r.Chance(1, 3) {
 					time.Sleep(time.Duration(r.Intn(k.ReaderUs)+1) * time.Microsecond)
 				}
+				if k.ReaderUs < 0 {
+					// a fixed gap after every chunk, so that each chunk is read on its own
+					time.Sleep(time.Duration(-k.ReaderUs) * time.Microsecond)
+				}
 				tick()
 			}
 			inW.Close()
@@ -533,6 +537,9 @@ func monC11(c *child.Ctx, replay json.RawMessage) {
 				// one Write that stays blocked for seconds while the input ends
 				k.Input = hexs(gen.RandFrame(r).Bytes)
 				k.WriterMode, k.WriterUs = "blocktail", r.Range(2300000, 3500000)
+				if app == "rtcmfilter" {
+					k.WriterMode = "block" // no headings: the only Write is the one that blocks
+				}
 			} else if i%40 == 7 {
 				// "however slow the writer is": a writer that blocks a quarter of a second or
 				// more on every call, with a handful of messages
